@@ -207,7 +207,7 @@ theorem C09_rewriter_failure (env : Env) (fs : FS) (acts : List Action) (args : 
 
 /-- a one-file world for the example below: path 3 holds content 10, which the rewriter maps to 11 -/
 def fsW' : FS := fun p => if p = 3 then some (.file 10 true) else none
-def envW' : Env := ⟨fun c => if c = 10 then some 11 else some c, fun _ => true⟩
+def envW' : Env := ⟨fun c => if c = 10 then some 11 else some c, fun _ => true, fun _ => true⟩
 
 /-- **C09_rewriter_once.**  `Modifier` laziness: whatever the action list (PRINT, IFCHANGED, DIFF, REPLACE, …
     may all need the output), the rewriter is invoked at most once during one file's turn. -/
@@ -218,6 +218,54 @@ theorem C09_rewriter_once (env : Env) (acts : List Action) (fs : FS) (p : Path) 
 
 -- the bound is attained although three actions use the output
 example : rewrites (runActions envW' [.print, .ifchanged, .diff, .replace] fsW' (MState.fresh 3) []).ev = 1 := by decide
+
+/-- **C09_unwritable_untouched.**  A path at which `atomic_write_file` fails keeps its node, under every
+    action list, policy, argument list and answer sequence (a failed REPLACE writes nothing). -/
+theorem C09_unwritable_untouched (env : Env) (fs : FS) (acts : List Action) (args : List Path) (ans : List Str)
+    (q : Path) (hq : env.writable q = false) :
+    (processActions env fs acts args ans).fs q = fs q := by
+  rw [processActions_fs]
+  refine processFiles_induct (fun s => s.fs q = fs q) _ _ (fun s p _ hs => ?_) rfl
+  show (processFile env acts s p).fs q = fs q
+  rw [processFile_fs, runActions_unwritable env hq]; exact hs
+
+/-! ### File names -/
+
+/-- Characters the shell gives a meaning to inside an unquoted word (POSIX "must be quoted" set plus the
+    pattern, comment, history and expansion characters). -/
+def shellSpecial : List Char :=
+  [' ', '\t', '\n', '\r', '|', '&', ';', '<', '>', '(', ')', '$', '`', '\\', '"', '\'', '*', '?', '[', ']',
+   '#', '!', '^', '%', ':']
+
+/-- **safeName_shell_inert.**  A name accepted by `Filename` contains no character that the shell interprets:
+    the unquoted interpolation of file names into the DIFF / EXECUTE command line yields exactly one word per
+    name, so such a command cannot redirect into, or run anything on, another path by way of the name. -/
+theorem safeName_shell_inert (s : Str) (h : safeName s = true) : ∀ c ∈ s, c ∉ shellSpecial := by
+  intro c hc hsp
+  have hall : s.all safeChar = true := by
+    simp only [safeName, Bool.and_eq_true] at h; exact h.1.2
+  have hsafe : safeChar c = true := List.all_eq_true.mp hall c hc
+  have hno : ∀ x ∈ shellSpecial, safeChar x = false := by decide
+  rw [hno c hsp] at hsafe; simp at hsafe
+
+/-- **C09_unsafe_refused.**  One argument whose name is outside the whitelist refuses the whole run: nothing
+    in the file system changes and the exit status is non-zero. -/
+theorem C09_unsafe_refused (env : Env) (keep tty : Bool) (opts : List Opt) (name : Path → Str) (fs : FS)
+    (args : List Path) (ans : List Str) (p : Path) (hp : p ∈ args) (hu : safeName (name p) = false) :
+    (mainNamed env keep tty opts name fs args ans).fs = fs ∧
+    (mainNamed env keep tty opts name fs args ans).status ≠ 0 := by
+  have hall : args.all (fun p => safeName (name p)) = false := by
+    rw [List.all_eq_false]; exact ⟨p, hp, by simp [hu]⟩
+  unfold mainNamed
+  simp only [hall]
+  cases parseOptions keep tty opts with
+  | error e => cases e <;> simp
+  | ok a => simp
+
+-- the names of the seeded change: 'v1->v2.py' is refused, 'v1-v2.py' accepted, 'é.py' and '~x' refused
+example : safeName "/tmp/w/v1->v2.py".toList = false ∧ safeName "/tmp/w/v1-v2.py".toList = true ∧
+    safeName "/tmp/w/é.py".toList = false ∧ safeName "/tmp/~x".toList = false ∧ safeName "".toList = false ∧
+    safeName "/tmp/a b.py".toList = false ∧ safeName "/tmp/w/-x.py".toList = true := by decide
 
 /-! ### Symlink policies -/
 
@@ -667,7 +715,7 @@ def fsW : FS := fun p =>
   else if p = 4 then some (.file 12 true) else if p = 5 then some (.file 13 true) else none
 
 /-- rewriter: 10 ↦ 11, 13 fails, everything else is a fixed point -/
-def envW : Env := ⟨fun c => if c = 10 then some 11 else if c = 13 then none else some c, fun _ => true⟩
+def envW : Env := ⟨fun c => if c = 10 then some 11 else if c = 13 then none else some c, fun _ => true, fun p => p != 6⟩
 
 /-- D4: `tidy-imports --symlinks=skip --replace link.py`: the policy asked for is `skip`, yet the tuple is
     `[IFCHANGED, REPLACE]` and the symlink is replaced by a regular file with the rewritten content. -/
@@ -787,6 +835,18 @@ example : (processActions envW fsW [.symlink .error, .ifchanged, .replace] [9, 5
       [⟨9, .badFilename⟩, ⟨5, .rewriter⟩] ∧
     (processActions envW fsW [.symlink .error, .ifchanged, .replace] [9, 5, 3] []).fs 3 = some (.file 11 false) := by
   decide
+
+-- C09_isolation_partial / C09_unwritable_untouched with a write failure: path 3 cannot be written
+-- (`-r c.py t.py` with c.py in a read-only directory): it keeps its node, the failure is reported, and the
+-- file after it is rewritten
+example :
+    (processActions ⟨envW.rw, fun _ => true, fun p => p != 3⟩ fsW [.symlink .error, .ifchanged, .replace] [3, 2] []).fs 3
+      = some (.file 10 true) ∧
+    (processActions ⟨envW.rw, fun _ => true, fun p => p != 3⟩ fsW [.symlink .error, .ifchanged, .replace] [3, 2] []).fs 2
+      = some (.file 11 false) ∧
+    (processActions ⟨envW.rw, fun _ => true, fun p => p != 3⟩ fsW [.symlink .error, .ifchanged, .replace] [3, 2] []).status = 1 ∧
+    (processActions ⟨envW.rw, fun _ => true, fun p => p != 3⟩ fsW [.symlink .error, .ifchanged, .replace] [3, 2] []).summary
+      = [⟨3, .io⟩] := by decide
 
 end Witness
 
